@@ -42,6 +42,9 @@ def native_confirm(prop, res, sc, repo='/repo'):
     if name == 'death_between_decision_and_complete_write_never_skipped':
         obs = incr_native.replay_runs(sc, worlds, [{'epoch': 1, 'mode': 'ok'}, {'epoch': 2, 'mode': 'crash_in_script'}, {'epoch': 4, 'mode': 'ok'}], repo)
         return (obs[1]['rc'] == 77 and obs[2]['skipped'] and not obs[2]['script_spawned']), obs
+    if name == 'only_own_record_is_written':
+        pr = incr_native.frame_probe(sc, repo)
+        return (bool(pr['foreign_mutations']) or not pr['sibling_survived']), [pr]
     if name == 'second_run_result_is_ok':
         obs = incr_native.replay_runs(sc, worlds, [{'epoch': 1, 'mode': 'ok'}, {'epoch': 2, 'mode': 'ok'}], repo)
         return (obs[1]['rc'] not in (0,)), obs
